@@ -28,7 +28,7 @@ C08_RegisterOnly205_203 == J => \A n \in 1..N : (Ev[n].ret = "ok") =>
 \* "once cancellation has returned (or registration has failed) no notification arriving later reaches the callback"
 DeadBefore(k, n) == \E m \in 1..(n - 1) : Ev[m].ev.k = k /\ Ev[m].applied /\
                        ((Ev[m].ev.e = "cancel" /\ Ev[m].cancel = "ok") \/ (Ev[m].ev.e = "cancelgiveup" /\ Ev[m].cancel \in {"ok", "err"})
-                        \/ (Ev[m].ev.e = "first" /\ Ev[m].ev.kind = "err")
+                        \/ (Ev[m].ev.e = "first" /\ Ev[m].ev.kind \in {"err", "err2xx"})
                         \/ (Ev[m].ev.e = "giveup" /\ Ev[m].ret = "err"))
 C08_SilentAfterCancel == J => \A n \in 1..N : (Ev[n].ev.e = "notify" /\ DeadBefore(Ev[n].ev.k, n)) => Ev[n].calls = <<>>
 C08_NoHang == J => ~T.hung
